@@ -12,7 +12,9 @@ open Eru.Lock
 structure JR (p : Redis.Params) (st : SpecSt) (s : Redis.State) : Prop where
   now : st.now = s.now
   hold : ∀ h ∈ st.holders, ∃ tok, s.cl h.1 = .holding tok ∧ (s.now < h.2 + p.ttl → s.val = some (tok, h.2 + p.ttl))
-  clean : tagTwoHolders ∉ st.viol
+  owner : ∀ tok e, Redis.alive s = some (tok, e) → ∃ h ∈ st.holders, s.cl h.1 = .holding tok ∧ e = h.2 + p.ttl
+  pend : ∀ c ∈ st.queued, c ∉ st.stale → ∃ tok, s.cl c = .trying .lock tok (s.wall + p.interval) (s.wall + p.wait)
+  clean : ∀ t ∈ st.viol, t = tagD15
 
 theorem alive_begin (p : Redis.Params) (s : Redis.State) (i : Nat) (m : Redis.Mode) :
     Redis.alive (Redis.begin p s i m) = Redis.alive s := rfl
@@ -24,7 +26,7 @@ theorem enter_cases (p : Redis.Params) (s : Redis.State) (i : Nat) (m : Redis.Mo
     ((Redis.alive s).isSome ∧ (Redis.enter p s i m).val = s.val ∧
       (match m with
        | .try => (Redis.enter p s i m).cl i = .failed
-       | .lock => ∃ na dl, (Redis.enter p s i m).cl i = .trying .lock s.nextTok na dl)) := by
+       | .lock => (Redis.enter p s i m).cl i = .trying .lock s.nextTok (s.wall + p.interval) (s.wall + p.wait))) := by
   unfold Redis.enter Redis.attempt
   rw [alive_begin]
   cases h : Redis.alive s with
@@ -34,12 +36,12 @@ theorem enter_cases (p : Redis.Params) (s : Redis.State) (i : Nat) (m : Redis.Mo
     cases m <;> simp [Redis.setCl, Redis.begin]
 
 theorem enter_frame (p : Redis.Params) (s : Redis.State) (i : Nat) (m : Redis.Mode) :
-    (Redis.enter p s i m).now = s.now ∧ ∀ j, j ≠ i → (Redis.enter p s i m).cl j = s.cl j := by
+    (Redis.enter p s i m).now = s.now ∧ (Redis.enter p s i m).wall = s.wall ∧ ∀ j, j ≠ i → (Redis.enter p s i m).cl j = s.cl j := by
   unfold Redis.enter Redis.attempt
   rw [alive_begin]
   cases Redis.alive s with
-  | none => exact ⟨rfl, fun j hj => by simp [Redis.setCl, Redis.begin, hj]⟩
-  | some v => cases m <;> exact ⟨rfl, fun j hj => by simp [Redis.setCl, Redis.begin, hj]⟩
+  | none => exact ⟨rfl, rfl, fun j hj => by simp [Redis.setCl, Redis.begin, hj]⟩
+  | some v => cases m <;> exact ⟨rfl, rfl, fun j hj => by simp [Redis.setCl, Redis.begin, hj]⟩
 
 theorem runOut_frame (s : Redis.State) (i : Nat) :
     (Redis.runOut s i).1.now = s.now ∧ (Redis.runOut s i).1.val = s.val ∧
@@ -59,108 +61,18 @@ theorem runOut_frame (s : Redis.State) (i : Nat) :
   | done b =>
     refine ⟨rfl, rfl, fun _ _ => rfl, fun e => (by simp [Redis.phaseRes, h] at e), fun _ tok' => (by simp [h])⟩
 
-/-- a successful acquisition in a state whose key is free keeps the book right and adds no violation -/
-theorem jr_acquired {p : Redis.Params} {st : SpecSt} {s s' : Redis.State} (j : JR p st s) (c tok : Nat)
-    (hfree : Redis.alive s = none) (hnot : ∀ t, s.cl c ≠ .holding t)
-    (hc : s'.cl c = .holding tok) (hv : s'.val = some (tok, s.now + p.ttl)) (hn : s'.now = s.now)
-    (hfr : ∀ k, k ≠ c → s'.cl k = s.cl k) :
-    JR p (onAcquired true p.ttl st c) s' := by
-  have nolive : liveOthers true p.ttl st c = [] := by
-    apply List.filter_eq_nil_iff.mpr
-    intro h hh
-    simp only [withinLease, if_true, Bool.and_eq_true, bne_iff_ne, ne_eq, decide_eq_true_eq, not_and]
-    intro _ hlt
-    obtain ⟨t, _, hval⟩ := j.hold h hh
-    rw [j.now] at hlt
-    have hv' := hval hlt
-    have : Redis.alive s = some (t, h.2 + p.ttl) := Redis.alive_none_of hv' hlt
-    rw [hfree] at this; cases this
-  have notin : st.holders.any (·.1 == c) = false := by
-    apply Bool.eq_false_iff.mpr
-    intro ha
-    obtain ⟨h, hh, e⟩ := List.any_eq_true.mp ha
-    obtain ⟨t, ht, _⟩ := j.hold h hh
-    have : h.1 = c := by simpa using e
-    rw [this] at ht; exact hnot t ht
-  refine ⟨by simp [onAcquired, j.now, hn], ?_, ?_⟩
-  · simp only [onAcquired, notin, Bool.false_eq_true, if_false]
-    intro h hh
-    rcases List.mem_cons.mp hh with e | hh'
-    · subst e; exact ⟨tok, hc, fun _ => by rw [hv, j.now]⟩
-    · obtain ⟨t, ht, hval⟩ := j.hold h hh'
-      have hne : h.1 ≠ c := by intro e; rw [e] at ht; exact hnot t ht
-      refine ⟨t, by rw [hfr _ hne]; exact ht, ?_⟩
-      intro hlt
-      rw [hn] at hlt
-      have hv' := hval hlt
-      have : Redis.alive s = some (t, h.2 + p.ttl) := Redis.alive_none_of hv' hlt
-      rw [hfree] at this; cases this
-  · simp only [onAcquired, nolive, List.isEmpty_nil, if_true, List.append_nil]
-    exact j.clean
-
-/-- a step that leaves `now`, `val` and every holder's phase alone keeps the book right -/
-theorem jr_frame {p : Redis.Params} {st st' : SpecSt} {s s' : Redis.State} (j : JR p st s)
-    (hn : s'.now = s.now) (hv : s'.val = s.val) (hcl : ∀ h ∈ st.holders, s'.cl h.1 = s.cl h.1)
-    (h1 : st'.now = st.now) (h2 : st'.holders = st.holders) (h3 : tagTwoHolders ∉ st'.viol) : JR p st' s' := by
-  refine ⟨by rw [h1, hn]; exact j.now, ?_, h3⟩
-  intro h hh
-  rw [h2] at hh
-  obtain ⟨t, ht, hval⟩ := j.hold h hh
-  exact ⟨t, by rw [hcl h hh]; exact ht, by rw [hn, hv]; exact hval⟩
-
-theorem refusedViol_clean (ttl wait : Nat) (st : SpecSt) (c : SCmd) (f : Flag) :
-    tagTwoHolders ∉ refusedViol true ttl wait st c f := by
-  unfold refusedViol
-  simp only [List.mem_append, not_or]
-  refine ⟨⟨⟨?_, ?_⟩, ?_⟩, ?_⟩ <;> (split <;> simp [tagTwoHolders])
-
-theorem observeViol_clean (ttl : Nat) (st : SpecSt) (c : Nat) (r : Out) (f : Flag) :
-    tagTwoHolders ∉ observeViol true ttl st c r f := by
-  unfold observeViol
-  split
-  · split
-    · simp [tagTwoHolders]
-    · split
-      · simp [tagTwoHolders]
-      · split <;> simp [tagTwoHolders]
-  · simp
-
-end Eru.Lock.Spec
-
-namespace Eru.Lock.Spec
-open Eru.Lock
-
-/-- what a not-acquired result of an acquiring call does to the spec's book -/
-theorem specStep_nonacq (redis : Bool) (ttl wait : Nat) (st : SpecSt) (c : SCmd) (r : Out) (f : Flag)
-    (hop : isAcq c.op = true) (hr : r ≠ .acquired) (hclean : tagTwoHolders ∉ st.viol)
-    (hredis : redis = true) :
-    (specStep redis ttl wait st c r f).now = st.now ∧ (specStep redis ttl wait st c r f).holders = st.holders ∧
-    tagTwoHolders ∉ (specStep redis ttl wait st c r f).viol := by
-  subst hredis
-  unfold specStep
-  rw [hop]
-  cases r with
-  | acquired => exact absurd rfl hr
-  | refused =>
-    refine ⟨rfl, rfl, ?_⟩
-    simp only [List.mem_append, not_or]
-    exact ⟨hclean, refusedViol_clean ttl wait st c f⟩
-  | blocked =>
-    refine ⟨rfl, rfl, ?_⟩
-    simp only [List.mem_append, not_or]
-    refine ⟨hclean, ?_⟩
-    split <;> simp [tagTwoHolders]
-  | ctxLive => cases hc : c.op <;> simp_all [isAcq]
-  | ctxDone => cases hc : c.op <;> simp_all [isAcq]
-  | ctxPlain => cases hc : c.op <;> simp_all [isAcq]
-  | other => cases hc : c.op <;> simp_all [isAcq]
-
-theorem jr_nonacq {p : Redis.Params} {st : SpecSt} {s s' : Redis.State} (j : JR p st s) (c : SCmd) (r : Out) (f : Flag)
-    (hop : isAcq c.op = true) (hr : r ≠ .acquired)
-    (hn : s'.now = s.now) (hv : s'.val = s.val) (hcl : ∀ h ∈ st.holders, s'.cl h.1 = s.cl h.1) :
-    JR p (specStep true p.ttl p.wait st c r f) s' := by
-  obtain ⟨a, b, d⟩ := specStep_nonacq true p.ttl p.wait st c r f hop hr j.clean rfl
-  exact jr_frame j hn hv hcl a b d
+theorem release_cases (s : Redis.State) (i tok : Nat) :
+    (∃ e, Redis.alive s = some (tok, e) ∧ Redis.release s i tok = { Redis.setCl s i (.done true) with val := none }) ∨
+    ((∀ e, Redis.alive s ≠ some (tok, e)) ∧ Redis.release s i tok = Redis.setCl s i (.done false)) := by
+  unfold Redis.release
+  cases ha : Redis.alive s with
+  | none => right; exact ⟨fun e h => (by cases h), rfl⟩
+  | some v =>
+    obtain ⟨t, e⟩ := v
+    by_cases ht : t = tok
+    · subst ht; left; exact ⟨e, rfl, by simp⟩
+    · right; refine ⟨fun e' h => ?_, by simp [ht]⟩
+      injection h with h; injection h with h1 _; exact ht h1
 
 /-- holders are holding, so a client in another phase is not among them -/
 theorem holder_ne {p : Redis.Params} {st : SpecSt} {s : Redis.State} (j : JR p st s) (i : Nat)
@@ -169,104 +81,291 @@ theorem holder_ne {p : Redis.Params} {st : SpecSt} {s : Redis.State} (j : JR p s
   obtain ⟨t, ht, _⟩ := j.hold h hh
   rw [e] at ht; exact hi t ht
 
-/-- entering `Obtain` from idle (Lock, TryLock, background Lock), optionally running out afterwards -/
-theorem jr_enter {p : Redis.Params} {st : SpecSt} {s : Redis.State} (j : JR p st s) (i : Nat) (m : Redis.Mode)
-    (op : Op) (hop : isAcq op = true) (hi : s.cl i = .idle) (f : Flag) (out : Bool) :
-    let e := Redis.enter p s i m
-    let r := if out then Redis.runOut e i else (e, Redis.phaseRes e i)
-    JR p (specStep true p.ttl p.wait st ⟨op, i, 0⟩ (classRedis r.2) f) r.1 := by
-  intro e r
-  have hnot : ∀ t, s.cl i ≠ .holding t := by intro t h; rw [hi] at h; cases h
-  have hne := holder_ne j i hnot
-  obtain ⟨fn, ffr⟩ := enter_frame p s i m
-  obtain ⟨ro1, ro2, ro3, ro4, ro5⟩ := runOut_frame e i
-  rcases enter_cases p s i m with ⟨hfree, hc, hv⟩ | ⟨hbusy, hv, hph⟩
-  · -- acquired
-    have hr : r = (e, .acquired) := by
-      simp only [r]
-      cases out
-      · simp [Redis.phaseRes, e, hc]
-      · simp only [if_true, Redis.runOut, e, hc, Redis.phaseRes]
-    rw [hr]
-    have : specStep true p.ttl p.wait st ⟨op, i, 0⟩ (classRedis .acquired) f = onAcquired true p.ttl st i := by
-      simp [specStep, hop, classRedis]
-    rw [this]
-    exact jr_acquired j i s.nextTok hfree hnot hc hv fn ffr
-  · -- busy
-    have hnh : ∀ t, e.cl i ≠ .holding t := by
-      intro t ht
-      cases m with
-      | «try» => simp only at hph; rw [hph] at ht; cases ht
-      | lock => obtain ⟨na, dl, hph⟩ := hph; rw [hph] at ht; cases ht
-    have hres : r.2 ≠ .acquired := by
-      simp only [r]
-      cases out
-      · simp only [Bool.false_eq_true, if_false, Redis.phaseRes]
-        cases m with
-        | «try» => simp only at hph; simp [e, hph]
-        | lock => obtain ⟨na, dl, hph⟩ := hph; simp [e, hph]
-      · simp only [if_true]
-        intro ha
-        obtain ⟨_, t, ht⟩ := ro4 ha
-        exact hnh t ht
-    have hclass : classRedis r.2 ≠ .acquired := by
-      intro hc; apply hres
-      cases hr2 : r.2 <;> simp [hr2, classRedis] at hc ⊢
-    apply jr_nonacq j ⟨op, i, 0⟩ _ f hop hclass
-    · simp only [r]; cases out
-      · exact fn
-      · simp only [if_true]; rw [ro1]; exact fn
-    · simp only [r]; cases out
-      · exact hv
-      · simp only [if_true]; rw [ro2]; exact hv
-    · intro h hh
-      have := hne h hh
-      simp only [r]; cases out
-      · exact ffr _ this
-      · simp only [if_true]; rw [ro3 _ this]; exact ffr _ this
+/-- a live key belongs to a holder of the book that is within its lease: somebody else is inside -/
+theorem busy_liveOthers {p : Redis.Params} {st : SpecSt} {s : Redis.State} (j : JR p st s) (c : Nat)
+    (hc : ∀ t, s.cl c ≠ .holding t) (hb : (Redis.alive s).isSome) :
+    (liveOthers true p.ttl st c).isEmpty = false := by
+  cases ha : Redis.alive s with
+  | none => rw [ha] at hb; cases hb
+  | some v =>
+    obtain ⟨tok, e⟩ := v
+    obtain ⟨h, hh, hcl, he⟩ := j.owner tok e ha
+    have hne : h.1 ≠ c := by intro e'; rw [e'] at hcl; exact hc tok hcl
+    have hlt : s.now < e := (Redis.alive_some ha).2
+    have hm : h ∈ liveOthers true p.ttl st c := by
+      simp only [liveOthers, List.mem_filter, withinLease, if_true, Bool.and_eq_true, bne_iff_ne, ne_eq, decide_eq_true_eq]
+      exact ⟨hh, hne, by rw [j.now, ← he]; exact hlt⟩
+    cases hl : liveOthers true p.ttl st c with
+    | nil => rw [hl] at hm; cases hm
+    | cons _ _ => rfl
 
-end Eru.Lock.Spec
+/-- a free key: nobody of the book is inside within its lease -/
+theorem free_noLiveOthers {p : Redis.Params} {st : SpecSt} {s : Redis.State} (j : JR p st s) (c : Nat)
+    (hfree : Redis.alive s = none) : liveOthers true p.ttl st c = [] := by
+  apply List.filter_eq_nil_iff.mpr
+  intro h hh
+  simp only [withinLease, if_true, Bool.and_eq_true, bne_iff_ne, ne_eq, decide_eq_true_eq, not_and]
+  intro _ hlt
+  obtain ⟨t, _, hval⟩ := j.hold h hh
+  rw [j.now] at hlt
+  have : Redis.alive s = some (t, h.2 + p.ttl) := Redis.alive_none_of (hval hlt) hlt
+  rw [hfree] at this; cases this
 
-namespace Eru.Lock.Spec
-open Eru.Lock
+/-- K1: client `c` (not holding before) acquires the free key -/
+theorem jr_k1 {p : Redis.Params} {st st' : SpecSt} {s s' : Redis.State} (j : JR p st s) (c tok : Nat)
+    (hfree : Redis.alive s = none) (hnot : ∀ t, s.cl c ≠ .holding t)
+    (hc : s'.cl c = .holding tok) (hv : s'.val = some (tok, s.now + p.ttl)) (hn : s'.now = s.now)
+    (hfr : ∀ k, k ≠ c → s'.cl k = s.cl k)
+    (h1 : st'.now = st.now) (h2 : st'.holders = (c, st.now) :: st.holders)
+    (h3 : ∀ t ∈ st'.viol, t = tagD15)
+    (h4 : ∀ q ∈ st'.queued, q ∉ st'.stale → ∃ tk, s'.cl q = .trying .lock tk (s'.wall + p.interval) (s'.wall + p.wait)) :
+    JR p st' s' := by
+  have dead : ∀ h ∈ st.holders, ¬ s.now < h.2 + p.ttl := by
+    intro h hh hlt
+    obtain ⟨t, _, hval⟩ := j.hold h hh
+    have : Redis.alive s = some (t, h.2 + p.ttl) := Redis.alive_none_of (hval hlt) hlt
+    rw [hfree] at this; cases this
+  refine ⟨by rw [h1, hn]; exact j.now, ?_, ?_, h4, h3⟩
+  · intro h hh
+    rw [h2] at hh
+    rcases List.mem_cons.mp hh with e | hh'
+    · subst e; exact ⟨tok, hc, fun _ => by rw [hv, j.now]⟩
+    · obtain ⟨t, ht, _⟩ := j.hold h hh'
+      have hne : h.1 ≠ c := by intro e; rw [e] at ht; exact hnot t ht
+      exact ⟨t, by rw [hfr _ hne]; exact ht, fun hlt => absurd (by rw [hn] at hlt; exact hlt) (dead h hh')⟩
+  · intro tk e ha
+    obtain ⟨hval, _⟩ := Redis.alive_some ha
+    rw [hv] at hval; injection hval with hval; injection hval with e1 e2
+    refine ⟨(c, st.now), by rw [h2]; exact List.mem_cons_self, by rw [← e1]; exact hc, by rw [← e2, j.now]⟩
 
+/-- K2: client `c` moves between non-holding phases; key, server time and the other clients untouched -/
+theorem jr_k2 {p : Redis.Params} {st st' : SpecSt} {s s' : Redis.State} (j : JR p st s) (c : Nat)
+    (hnot : ∀ t, s.cl c ≠ .holding t) (hn : s'.now = s.now) (hv : s'.val = s.val)
+    (hfr : ∀ k, k ≠ c → s'.cl k = s.cl k)
+    (h1 : st'.now = st.now) (h2 : st'.holders = st.holders)
+    (h3 : ∀ t ∈ st'.viol, t = tagD15)
+    (h4 : ∀ q ∈ st'.queued, q ∉ st'.stale → ∃ tk, s'.cl q = .trying .lock tk (s'.wall + p.interval) (s'.wall + p.wait)) :
+    JR p st' s' := by
+  have hne := holder_ne j c hnot
+  have hal : Redis.alive s' = Redis.alive s := by unfold Redis.alive; rw [hv, hn]
+  refine ⟨by rw [h1, hn]; exact j.now, ?_, ?_, h4, h3⟩
+  · intro h hh
+    rw [h2] at hh
+    obtain ⟨t, ht, hval⟩ := j.hold h hh
+    exact ⟨t, by rw [hfr _ (hne h hh)]; exact ht, by rw [hn, hv]; exact hval⟩
+  · intro tk e ha
+    rw [hal] at ha
+    obtain ⟨h, hh, hcl, he⟩ := j.owner tk e ha
+    exact ⟨h, by rw [h2]; exact hh, by rw [hfr _ (hne h hh)]; exact hcl, he⟩
+
+theorem refusedViol_none (redis : Bool) (ttl wait interval : Nat) (st : SpecSt) (c : SCmd)
+    (h : wronglyRefused redis ttl wait interval st c = false) : refusedViol redis ttl wait interval st c .none = [] := by
+  unfold refusedViol
+  rw [h]
+  cases c.op <;> simp
+
+theorem wronglyRefused_of_live (redis : Bool) (ttl wait interval : Nat) (st : SpecSt) (c : SCmd)
+    (h : (liveOthers redis ttl st c.c).isEmpty = false) : wronglyRefused redis ttl wait interval st c = false := by
+  unfold wronglyRefused; simp [h]
+
+theorem op_of (op : Op) (hop : isAcq op = true) (hnj : op ≠ .join) :
+    op = .lock ∨ op = .tryLock ∨ op = .lockAsync := by
+  cases op <;> simp_all [isAcq]
+
+/-- without a stopwatch and with a lock that never cancels contexts, the only complaint an `observe`
+    can raise on Redis is the finding D15 -/
+theorem observeViol_redis (ttl : Nat) (st : SpecSt) (c : Nat) (res : Out) (hres : res = .ctxLive ∨ res = .other) :
+    ∀ t ∈ observeViol true ttl st c res .none, t = tagD15 := by
+  intro t ht
+  unfold observeViol at ht
+  split at ht
+  · rcases hres with e | e <;> subst e
+    · split at ht
+      · simpa using ht
+      · split at ht
+        · rename_i h; simp at h
+        · split at ht
+          · rename_i h; simp at h
+          · simp at ht
+    · split at ht
+      · rename_i h; simp at h
+      · split at ht
+        · rename_i h; simp at h
+        · split at ht
+          · rename_i h; simp at h
+          · simp at ht
+  · simp at ht
+
+/-- spec steps for the result classes of acquiring calls -/
+theorem specStep_acq (redis : Bool) (ttl wait iv : Nat) (st : SpecSt) (op : Op) (c : Nat) (hop : isAcq op = true) :
+    specStep redis ttl wait iv st ⟨op, c, 0⟩ .acquired .none =
+      (if op == .join then { onAcquired redis ttl st c with stale := (onAcquired redis ttl st c).queued ++ (onAcquired redis ttl st c).stale }
+       else onAcquired redis ttl st c) := by
+  simp [specStep, hop]
+
+theorem specStep_other (redis : Bool) (ttl wait iv : Nat) (st : SpecSt) (op : Op) (c : Nat) (hop : isAcq op = true) :
+    specStep redis ttl wait iv st ⟨op, c, 0⟩ .other .none = st := by
+  cases op <;> simp_all [specStep, isAcq]
+
+theorem onAcquired_fresh (redis : Bool) (ttl : Nat) (st : SpecSt) (c : Nat)
+    (hnew : st.holders.any (·.1 == c) = false) (hlive : liveOthers redis ttl st c = []) :
+    (onAcquired redis ttl st c).holders = (c, st.now) :: st.holders ∧ (onAcquired redis ttl st c).viol = st.viol ∧
+    (onAcquired redis ttl st c).now = st.now ∧ (onAcquired redis ttl st c).queued = st.queued.filter (· != c) ∧
+    (onAcquired redis ttl st c).stale = st.stale := by
+  simp [onAcquired, hnew, hlive]
+
+theorem not_in_holders {p : Redis.Params} {st : SpecSt} {s : Redis.State} (j : JR p st s) (c : Nat)
+    (hnot : ∀ t, s.cl c ≠ .holding t) : st.holders.any (·.1 == c) = false := by
+  apply Bool.eq_false_iff.mpr
+  intro ha
+  obtain ⟨h, hh, e⟩ := List.any_eq_true.mp ha
+  exact holder_ne j c hnot h hh (by simpa using e)
+
+/-- pending waiters other than `c`, when neither the wall clock nor their phases moved -/
+theorem pend_frame {p : Redis.Params} {st : SpecSt} {s s' : Redis.State} (j : JR p st s) (c : Nat)
+    (hw : s'.wall = s.wall) (hfr : ∀ k, k ≠ c → s'.cl k = s.cl k) :
+    ∀ q ∈ st.queued.filter (· != c), q ∉ st.stale →
+      ∃ tk, s'.cl q = .trying .lock tk (s'.wall + p.interval) (s'.wall + p.wait) := by
+  intro q hq hs
+  obtain ⟨hq1, hq2⟩ := List.mem_filter.mp hq
+  have hne : q ≠ c := by simpa using hq2
+  obtain ⟨tk, ht⟩ := j.pend q hq1 hs
+  exact ⟨tk, by rw [hfr q hne, hw]; exact ht⟩
+
+/-- the Redis model's own results never violate the spec (timing flags: none; the only tag that can
+    appear is the C19 finding D15, on `observe`) -/
 theorem jr_step {p : Redis.Params} {st : SpecSt} {s : Redis.State} (j : JR p st s) (hr : Redis.Reach p s)
-    (c : Redis.Cmd) (f : Flag) :
-    JR p (specStep true p.ttl p.wait st (ofRedis c) (classRedis (Redis.exec p s c).2) f) (Redis.exec p s c).1 := by
-  have same : ∀ (cmd : SCmd), isAcq cmd.op = true →
-      JR p (specStep true p.ttl p.wait st cmd (classRedis .misuse) f) s := by
-    intro cmd hop
-    exact jr_nonacq j cmd _ f hop (by simp [classRedis]) rfl rfl (fun _ _ => rfl)
+    (c : Redis.Cmd) :
+    JR p (specStep true p.ttl p.wait p.interval st (ofRedis c) (classRedis (Redis.exec p s c).2) .none) (Redis.exec p s c).1 := by
+  -- entering Obtain from idle
+  have enterCase : ∀ (i : Nat) (m : Redis.Mode) (op : Op) (out : Bool), isAcq op = true → op ≠ .join →
+      (op = .lockAsync → m = .lock ∧ out = false) → (op = .lock → m = .lock ∧ out = true) →
+      (op = .tryLock → m = .try ∧ out = false) →
+      s.cl i = .idle →
+      let e := Redis.enter p s i m
+      let r := if out then Redis.runOut e i else (e, Redis.phaseRes e i)
+      JR p (specStep true p.ttl p.wait p.interval st ⟨op, i, 0⟩ (classRedis r.2) .none) r.1 := by
+    intro i m op out hop hnj hla hlk htl hi e r
+    have hnot : ∀ t, s.cl i ≠ .holding t := by intro t h; rw [hi] at h; cases h
+    obtain ⟨fn, fw, ffr⟩ := enter_frame p s i m
+    obtain ⟨ro1, ro2, ro3, ro4, ro5⟩ := runOut_frame e i
+    rcases enter_cases p s i m with ⟨hfree, hc, hv⟩ | ⟨hbusy, hv, hph⟩
+    · have hr' : r = (e, .acquired) := by
+        simp only [r]
+        cases out
+        · simp [Redis.phaseRes, e, hc]
+        · simp only [if_true, Redis.runOut, e, hc, Redis.phaseRes]
+      rw [hr']
+      have hj : (op == Op.join) = false := by
+        rcases op_of op hop hnj with h | h | h <;> subst h <;> rfl
+      show JR p (specStep true p.ttl p.wait p.interval st ⟨op, i, 0⟩ .acquired .none) e
+      rw [specStep_acq _ _ _ _ _ _ _ hop, hj]
+      obtain ⟨a1, a2, a3, a4, a5⟩ := onAcquired_fresh true p.ttl st i (not_in_holders j i hnot) (free_noLiveOthers j i hfree)
+      simp only [Bool.false_eq_true, if_false]
+      refine jr_k1 j i s.nextTok hfree hnot hc hv fn ffr a3 a1 (by rw [a2]; exact j.clean) ?_
+      rw [a4, a5]
+      exact pend_frame j i fw ffr
+    · -- busy
+      have hlive := busy_liveOthers j i hnot hbusy
+      cases m with
+      | «try» =>
+        simp only at hph
+        have hop' : op = .tryLock := by
+          rcases op_of op hop hnj with h | h | h
+          · exact absurd (hlk h).1 (by decide)
+          · exact h
+          · exact absurd (hla h).1 (by decide)
+        have hout : out = false := (htl hop').2
+        subst hout
+        have hr' : r = (e, .notObtained) := by simp [r, Redis.phaseRes, e, hph]
+        rw [hr']
+        show JR p (specStep true p.ttl p.wait p.interval st ⟨op, i, 0⟩ .refused .none) e
+        subst hop'
+        simp only [specStep, isAcq, refusedViol_none _ _ _ _ _ _ (wronglyRefused_of_live true p.ttl p.wait p.interval st ⟨.tryLock, i, 0⟩ hlive),
+          List.append_nil, consumesTime, Bool.false_eq_true, if_false]
+        refine jr_k2 j i hnot fn hv ffr rfl rfl j.clean ?_
+        exact pend_frame j i fw ffr
+      | lock =>
+        simp only at hph
+        cases out
+        · -- background Lock: blocked
+          have hr' : r = (e, .blocked) := by simp [r, Redis.phaseRes, e, hph]
+          rw [hr']
+          show JR p (specStep true p.ttl p.wait p.interval st ⟨op, i, 0⟩ .blocked .none) e
+          have hop' : op = .lockAsync := by
+            rcases op_of op hop hnj with h | h | h
+            · exact absurd (hlk h).2 (by decide)
+            · exact absurd (htl h).1 (by decide)
+            · exact h
+          subst hop'
+          simp only [specStep, isAcq, hlive, Bool.false_and, Bool.false_eq_true, if_false, List.append_nil]
+          refine jr_k2 j i hnot fn hv ffr rfl rfl j.clean ?_
+          intro q hq hs
+          rcases List.mem_cons.mp hq with e1 | hq'
+          · subst e1; exact ⟨s.nextTok, by rw [fw]; exact hph⟩
+          · by_cases hqi : q = i
+            · subst hqi; exact ⟨s.nextTok, by rw [fw]; exact hph⟩
+            · have hs' : q ∉ st.stale := by
+                intro hm; apply hs
+                exact List.mem_filter.mpr ⟨hm, by simpa using hqi⟩
+              obtain ⟨tk, ht⟩ := j.pend q hq' hs'
+              exact ⟨tk, by rw [ffr q hqi, fw]; exact ht⟩
+        · -- blocking Lock: runs into its deadline
+          have hro : Redis.runOut e i = (Redis.setCl { e with wall := max e.wall (s.wall + p.wait) } i .failed, .notObtained) := by
+            simp only [Redis.runOut, e, hph]
+          have hr' : r = (Redis.setCl { e with wall := max e.wall (s.wall + p.wait) } i .failed, .notObtained) := by
+            simp only [r, if_true]; exact hro
+          rw [hr']
+          show JR p (specStep true p.ttl p.wait p.interval st ⟨op, i, 0⟩ .refused .none) _
+          have hop' : op = .lock := by
+            rcases op_of op hop hnj with h | h | h
+            · exact h
+            · exact absurd (htl h).2 (by decide)
+            · exact absurd (hla h).2 (by decide)
+          subst hop'
+          simp only [specStep, isAcq, refusedViol_none _ _ _ _ _ _ (wronglyRefused_of_live true p.ttl p.wait p.interval st ⟨.lock, i, 0⟩ hlive),
+            List.append_nil, consumesTime, if_true]
+          refine jr_k2 j i hnot (by show e.now = s.now; exact fn) (by show e.val = s.val; exact hv)
+            (by intro k hk; show (if k = i then _ else e.cl k) = s.cl k; rw [if_neg hk]; exact ffr k hk) rfl rfl j.clean ?_
+          intro q hq hs
+          exact absurd (List.mem_append.mpr (Or.inl hq)) hs
+  have same : ∀ (op : Op) (i : Nat), isAcq op = true →
+      JR p (specStep true p.ttl p.wait p.interval st ⟨op, i, 0⟩ (classRedis .misuse) .none) s := by
+    intro op i hop
+    show JR p (specStep true p.ttl p.wait p.interval st ⟨op, i, 0⟩ .other .none) s
+    rw [specStep_other _ _ _ _ _ _ _ hop]; exact j
   cases c with
   | lock i =>
     simp only [Redis.exec, ofRedis]
     split
     · rename_i hi
-      have := jr_enter j i .lock .lock rfl hi f true
+      have := enterCase i .lock .lock true rfl (by intro h; cases h) (by intro h; cases h) (fun _ => ⟨rfl, rfl⟩) (by intro h; cases h) hi
       simpa using this
-    · exact same ⟨.lock, i, 0⟩ rfl
+    · exact same .lock i rfl
   | tryLock i =>
     simp only [Redis.exec, ofRedis]
     split
     · rename_i hi
-      have := jr_enter j i .try .tryLock rfl hi f false
+      have := enterCase i .try .tryLock false rfl (by intro h; cases h) (by intro h; cases h) (by intro h; cases h) (fun _ => ⟨rfl, rfl⟩) hi
       simpa using this
-    · exact same ⟨.tryLock, i, 0⟩ rfl
+    · exact same .tryLock i rfl
   | lockAsync i =>
     simp only [Redis.exec, ofRedis]
     split
     · rename_i hi
-      have := jr_enter j i .lock .lockAsync rfl hi f false
+      have := enterCase i .lock .lockAsync false rfl (by intro h; cases h) (fun _ => ⟨rfl, rfl⟩) (by intro h; cases h) (by intro h; cases h) hi
       simpa using this
-    · exact same ⟨.lockAsync, i, 0⟩ rfl
+    · exact same .lockAsync i rfl
   | join i =>
     simp only [Redis.exec, ofRedis]
     split
     · rename_i m tok na dl hi
       have hnot : ∀ t, s.cl i ≠ .holding t := by intro t h; rw [hi] at h; cases h
-      have hne := holder_ne j i hnot
+      -- after a join every pending waiter is stale: nothing to show for them
+      have allStale : ∀ (q : Nat) (l : List Nat), q ∈ l → ¬ q ∉ l ++ st.stale :=
+        fun q l hq hs => hs (List.mem_append.mpr (Or.inl hq))
       split
-      · -- a retry
+      · rename_i hlt
         let s1 : Redis.State := { s with wall := max s.wall na }
         have hal : Redis.alive s1 = Redis.alive s := rfl
         obtain ⟨ro1, ro2, ro3, ro4, ro5⟩ := runOut_frame (Redis.attempt p s1 i m tok dl) i
@@ -276,40 +375,62 @@ theorem jr_step {p : Redis.Params} {st : SpecSt} {s : Redis.State} (j : JR p st 
             simp [Redis.attempt, hal, ha, Redis.setCl]
           have hro : Redis.runOut (Redis.attempt p s1 i m tok dl) i = (Redis.attempt p s1 i m tok dl, .acquired) := by
             simp only [Redis.runOut, hc, Redis.phaseRes]
-          show JR p (specStep true p.ttl p.wait st ⟨.join, i, 0⟩ (classRedis (Redis.runOut (Redis.attempt p s1 i m tok dl) i).2) f)
+          show JR p (specStep true p.ttl p.wait p.interval st ⟨.join, i, 0⟩ (classRedis (Redis.runOut (Redis.attempt p s1 i m tok dl) i).2) .none)
             (Redis.runOut (Redis.attempt p s1 i m tok dl) i).1
           rw [hro]
-          have : specStep true p.ttl p.wait st ⟨.join, i, 0⟩ (classRedis .acquired) f = onAcquired true p.ttl st i := by
-            simp [specStep, isAcq, classRedis]
-          rw [this]
-          apply jr_acquired j i tok ha hnot hc
-          · simp [Redis.attempt, hal, ha, Redis.setCl, s1]
-          · simp [Redis.attempt, hal, ha, Redis.setCl, s1]
-          · intro k hk; simp [Redis.attempt, hal, ha, Redis.setCl, hk, s1]
+          show JR p (specStep true p.ttl p.wait p.interval st ⟨.join, i, 0⟩ .acquired .none) _
+          rw [specStep_acq _ _ _ _ _ _ _ rfl]
+          obtain ⟨a1, a2, a3, a4, a5⟩ := onAcquired_fresh true p.ttl st i (not_in_holders j i hnot) (free_noLiveOthers j i ha)
+          simp only [beq_self_eq_true, if_true]
+          refine jr_k1 j i tok ha hnot hc (by simp [Redis.attempt, hal, ha, Redis.setCl, s1])
+            (by simp [Redis.attempt, hal, ha, Redis.setCl, s1]) (by intro k hk; simp [Redis.attempt, hal, ha, Redis.setCl, hk, s1])
+            a3 a1 (by show ∀ t ∈ (onAcquired true p.ttl st i).viol, t = tagD15; rw [a2]; exact j.clean) ?_
+          intro q hq hs
+          exact absurd (List.mem_append.mpr (Or.inl hq)) hs
         | some v =>
+          have hlive := busy_liveOthers j i hnot (by rw [ha]; rfl)
           have hnh : ∀ t, (Redis.attempt p s1 i m tok dl).cl i ≠ .holding t := by
             intro t; cases m <;> simp [Redis.attempt, hal, ha, Redis.setCl]
-          have hres : (Redis.runOut (Redis.attempt p s1 i m tok dl) i).2 ≠ .acquired := by
-            intro hacq; obtain ⟨_, t, ht⟩ := ro4 hacq; exact hnh t ht
-          show JR p (specStep true p.ttl p.wait st ⟨.join, i, 0⟩ (classRedis (Redis.runOut (Redis.attempt p s1 i m tok dl) i).2) f)
+          have hres : (Redis.runOut (Redis.attempt p s1 i m tok dl) i).2 = .notObtained := by
+            unfold Redis.runOut
+            cases m <;> simp [Redis.attempt, hal, ha, Redis.setCl, Redis.phaseRes]
+          show JR p (specStep true p.ttl p.wait p.interval st ⟨.join, i, 0⟩ (classRedis (Redis.runOut (Redis.attempt p s1 i m tok dl) i).2) .none)
             (Redis.runOut (Redis.attempt p s1 i m tok dl) i).1
-          apply jr_nonacq j ⟨.join, i, 0⟩ _ f rfl
-          · intro hc; apply hres
-            cases hr2 : (Redis.runOut (Redis.attempt p s1 i m tok dl) i).2 <;> simp [hr2, classRedis] at hc ⊢
-          · rw [ro1]; cases m <;> simp [Redis.attempt, hal, ha, Redis.setCl, s1]
-          · rw [ro2]; cases m <;> simp [Redis.attempt, hal, ha, Redis.setCl, s1]
-          · intro h hh
-            rw [ro3 _ (hne h hh)]
-            cases m <;> simp [Redis.attempt, hal, ha, Redis.setCl, hne h hh, s1]
-      · -- past its deadline
-        show JR p (specStep true p.ttl p.wait st ⟨.join, i, 0⟩ (classRedis .notObtained) f)
+          rw [hres]
+          show JR p (specStep true p.ttl p.wait p.interval st ⟨.join, i, 0⟩ .refused .none) _
+          simp only [specStep, isAcq, refusedViol_none _ _ _ _ _ _ (wronglyRefused_of_live true p.ttl p.wait p.interval st ⟨.join, i, 0⟩ hlive),
+            List.append_nil, consumesTime, if_true]
+          refine jr_k2 j i hnot (by rw [ro1]; cases m <;> simp [Redis.attempt, hal, ha, Redis.setCl, s1])
+            (by rw [ro2]; cases m <;> simp [Redis.attempt, hal, ha, Redis.setCl, s1])
+            (by intro k hk; rw [ro3 k hk]; cases m <;> simp [Redis.attempt, hal, ha, Redis.setCl, hk, s1]) rfl rfl j.clean ?_
+          intro q hq hs
+          exact absurd (List.mem_append.mpr (Or.inl hq)) hs
+      · -- past its deadline without another attempt: only possible for a waiter the book does not judge
+        rename_i hnlt
+        show JR p (specStep true p.ttl p.wait p.interval st ⟨.join, i, 0⟩ .refused .none)
           (Redis.setCl { s with wall := max s.wall dl } i .failed)
-        exact jr_nonacq (s' := Redis.setCl { s with wall := max s.wall dl } i .failed) j ⟨.join, i, 0⟩
-          (classRedis .notObtained) f rfl (by simp [classRedis]) rfl rfl
-          (by intro h hh; simp [Redis.setCl, hne h hh])
-    · exact same ⟨.join, i, 0⟩ rfl
+        have hw : wronglyRefused true p.ttl p.wait p.interval st ⟨.join, i, 0⟩ = false := by
+          apply Bool.eq_false_iff.mpr
+          intro hwr
+          simp only [wronglyRefused, Bool.and_eq_true, Bool.not_eq_true', Bool.or_eq_true, beq_iff_eq,
+            List.contains_iff_mem, decide_eq_false_iff_not, Bool.true_and, reduceCtorEq, false_or] at hwr
+          obtain ⟨_, _, ⟨hq, hs⟩, hnr⟩ := hwr
+          obtain ⟨tk, ht⟩ := j.pend i (by simpa using hq) (by simpa using hs)
+          rw [hi] at ht
+          injection ht with _ _ e1 e2
+          subst e1; subst e2
+          apply hnlt
+          show max s.wall (s.wall + p.interval) < s.wall + p.wait
+          have : ¬ p.wait ≤ p.interval := hnr
+          omega
+        simp only [specStep, isAcq, refusedViol_none _ _ _ _ _ _ hw, List.append_nil, consumesTime, if_true]
+        refine jr_k2 (s' := Redis.setCl { s with wall := max s.wall dl } i .failed) j i hnot rfl rfl
+          (by intro k hk; simp [Redis.setCl, hk]) rfl rfl j.clean ?_
+        intro q hq hs
+        exact absurd (List.mem_append.mpr (Or.inl hq)) hs
+    · exact same .join i rfl
   | unlock i =>
-    have hspec : ∀ r, (specStep true p.ttl p.wait st ⟨.unlock, i, 0⟩ r f) =
+    have hspec : ∀ r, (specStep true p.ttl p.wait p.interval st ⟨.unlock, i, 0⟩ r .none) =
         { st with holders := st.holders.filter (·.1 != i) } := by
       intro r; cases r <;> simp [specStep, isAcq]
     simp only [Redis.exec, ofRedis]
@@ -317,76 +438,100 @@ theorem jr_step {p : Redis.Params} {st : SpecSt} {s : Redis.State} (j : JR p st 
     · rename_i tok hi
       simp only [hspec]
       have inv := Redis.inv_reach hr
-      refine ⟨j.now.trans (by unfold Redis.release; cases Redis.alive s with
-          | none => rfl
-          | some v => obtain ⟨a, b⟩ := v; simp only []; split <;> rfl), ?_, j.clean⟩
-      intro h hh
-      obtain ⟨hh1, hh2⟩ := List.mem_filter.mp hh
-      have hne : h.1 ≠ i := by simpa using hh2
-      obtain ⟨t, ht, hval⟩ := j.hold h hh1
-      have htne : t ≠ tok := by
-        intro e; subst e
-        exact hne (inv.uniq h.1 i t (by rw [ht]; rfl) (by rw [hi]; rfl))
-      unfold Redis.release
-      cases ha : Redis.alive s with
-      | none =>
-        refine ⟨t, by simp [Redis.setCl, hne, ht], ?_⟩
-        intro hlt; exact hval hlt
-      | some v =>
-        obtain ⟨a, b⟩ := v
-        simp only []
-        obtain ⟨hv, hlive⟩ := Redis.alive_some ha
-        split
-        · rename_i e
+      rcases release_cases s i tok with ⟨e0, ha0, hrel⟩ | ⟨hno, hrel⟩
+      · -- the live key was ours: deleted
+        rw [hrel]
+        obtain ⟨hv0, hlt0⟩ := Redis.alive_some ha0
+        refine ⟨j.now, ?_, ?_, ?_, j.clean⟩
+        · intro h hh
+          obtain ⟨hh1, hh2⟩ := List.mem_filter.mp hh
+          have hne : h.1 ≠ i := by simpa using hh2
+          obtain ⟨t, ht, hvl⟩ := j.hold h hh1
           refine ⟨t, by simp [Redis.setCl, hne, ht], ?_⟩
           intro hlt
-          have := hval hlt
-          rw [hv] at this; injection this with this; injection this with h1 _
-          exact absurd (h1.symm.trans e) htne
-        · refine ⟨t, by simp [Redis.setCl, hne, ht], ?_⟩
-          intro hlt; exact hval hlt
-    · simp only [hspec]
-      refine ⟨j.now, ?_, j.clean⟩
-      intro h hh
-      exact j.hold h (List.mem_filter.mp hh).1
+          have hv1 := hvl hlt
+          rw [hv0] at hv1; injection hv1 with hv1; injection hv1 with e1 _
+          subst e1
+          exact absurd (inv.uniq h.1 i tok (by rw [ht]; rfl) (by rw [hi]; rfl)) hne
+        · intro t e ha
+          simp [Redis.alive] at ha
+        · intro q hq hs
+          obtain ⟨tk, ht⟩ := j.pend q hq hs
+          have hne : q ≠ i := by intro e; rw [e] at ht; rw [hi] at ht; cases ht
+          exact ⟨tk, by simp [Redis.setCl, hne]; exact ht⟩
+      · -- expired, absent or somebody else's: untouched
+        rw [hrel]
+        refine ⟨j.now, ?_, ?_, ?_, j.clean⟩
+        · intro h hh
+          obtain ⟨hh1, hh2⟩ := List.mem_filter.mp hh
+          have hne : h.1 ≠ i := by simpa using hh2
+          obtain ⟨t, ht, hvl⟩ := j.hold h hh1
+          exact ⟨t, by simp [Redis.setCl, hne, ht], hvl⟩
+        · intro t e ha
+          have ha' : Redis.alive s = some (t, e) := ha
+          obtain ⟨h, hh, hcl, he⟩ := j.owner t e ha'
+          have hne : h.1 ≠ i := by
+            intro e'; rw [e', hi] at hcl; injection hcl with e2
+            exact hno e (by rw [e2]; exact ha')
+          exact ⟨h, List.mem_filter.mpr ⟨hh, by simpa using hne⟩, by simp [Redis.setCl, hne]; exact hcl, he⟩
+        · intro q hq hs
+          obtain ⟨tk, ht⟩ := j.pend q hq hs
+          have hne : q ≠ i := by intro e; rw [e] at ht; rw [hi] at ht; cases ht
+          exact ⟨tk, by simp [Redis.setCl, hne]; exact ht⟩
+    · rename_i hnh
+      simp only [hspec]
+      refine ⟨j.now, ?_, ?_, j.pend, j.clean⟩
+      · intro h hh; exact j.hold h (List.mem_filter.mp hh).1
+      · intro t e ha
+        obtain ⟨h, hh, hcl, he⟩ := j.owner t e ha
+        have hne : h.1 ≠ i := by intro e'; rw [e'] at hcl; exact hnh t hcl
+        exact ⟨h, List.mem_filter.mpr ⟨hh, by simpa using hne⟩, hcl, he⟩
   | ff dt =>
-    have hspec : ∀ r, (specStep true p.ttl p.wait st ⟨.ff, 0, dt⟩ r f) = { st with now := st.now + dt } := by
+    have hspec : ∀ r, (specStep true p.ttl p.wait p.interval st ⟨.ff, 0, dt⟩ r .none) = { st with now := st.now + dt } := by
       intro r; cases r <;> simp [specStep, isAcq]
     simp only [Redis.exec, ofRedis, hspec]
-    refine ⟨by simp [j.now], ?_, j.clean⟩
-    intro h hh
-    obtain ⟨t, ht, hval⟩ := j.hold h hh
-    exact ⟨t, ht, fun hlt => hval (by simp only at hlt; omega)⟩
+    refine ⟨by simp [j.now], ?_, ?_, j.pend, j.clean⟩
+    · intro h hh
+      obtain ⟨t, ht, hval⟩ := j.hold h hh
+      exact ⟨t, ht, fun hlt => hval (by simp only at hlt; omega)⟩
+    · intro t e ha
+      obtain ⟨hv, hlt⟩ := Redis.alive_some ha
+      simp only at hv hlt
+      exact j.owner t e (Redis.alive_none_of hv (by omega))
   | observe i =>
-    have hspec : ∀ r, (specStep true p.ttl p.wait st ⟨.observe, i, 0⟩ r f) =
-        { st with viol := st.viol ++ observeViol true p.ttl st i r f } := by
+    have hspec : ∀ r, (specStep true p.ttl p.wait p.interval st ⟨.observe, i, 0⟩ r .none) =
+        { st with viol := st.viol ++ observeViol true p.ttl st i r .none } := by
       intro r; cases r <;> simp [specStep, isAcq]
     simp only [Redis.exec, ofRedis, hspec]
-    refine ⟨j.now, j.hold, ?_⟩
-    simp only [List.mem_append, not_or]
-    exact ⟨j.clean, observeViol_clean _ _ _ _ _⟩
+    refine ⟨j.now, j.hold, j.owner, j.pend, ?_⟩
+    intro t ht
+    rcases List.mem_append.mp ht with h1 | h1
+    · exact j.clean t h1
+    · -- the Redis lock never cancels a context, so the only possible complaint is D15
+      have hcc := Redis.ctx_never_cancelled hr i
+      apply observeViol_redis p.ttl st i _ _ t h1
+      cases s.cl i <;> simp [hcc, classRedis]
   | cancelCtx i =>
-    have hspec : ∀ r, (specStep true p.ttl p.wait st ⟨.unknown, i, 0⟩ r f) = st := by
+    have hspec : ∀ r, (specStep true p.ttl p.wait p.interval st ⟨.unknown, i, 0⟩ r .none) = st := by
       intro r; cases r <;> simp [specStep, isAcq]
     simp only [Redis.exec, ofRedis, hspec]
     exact j
 
-/-- the spec run over the Redis model's own replay -/
--- (a cancelled acquiring context changes neither the model state nor the spec's book)
-def specReplayRedis (p : Redis.Params) : SpecSt → Redis.State → List Redis.Cmd → List Flag → SpecSt
-  | st, _, [], _ => st
-  | st, s, c :: cs, fs =>
+/-- the spec run over the Redis model's own replay (no timing flags: the model has no stopwatch) -/
+def specReplayRedis (p : Redis.Params) : SpecSt → Redis.State → List Redis.Cmd → SpecSt
+  | st, _, [] => st
+  | st, s, c :: cs =>
     let r := Redis.exec p s c
-    specReplayRedis p (specStep true p.ttl p.wait st (ofRedis c) (classRedis r.2) (fs.headD .none)) r.1 cs fs.tail
+    specReplayRedis p (specStep true p.ttl p.wait p.interval st (ofRedis c) (classRedis r.2) .none) r.1 cs
 
-theorem jr_replay {p : Redis.Params} (hp : 0 < p.wait) : ∀ (cs : List Redis.Cmd) (st : SpecSt) (s : Redis.State) (fs : List Flag),
-    JR p st s → Redis.Reach p s → tagTwoHolders ∉ (specReplayRedis p st s cs fs).viol := by
+theorem jr_replay {p : Redis.Params} (hp : 0 < p.wait) : ∀ (cs : List Redis.Cmd) (st : SpecSt) (s : Redis.State),
+    JR p st s → Redis.Reach p s → ∀ t ∈ (specReplayRedis p st s cs).viol, t = tagD15 := by
   intro cs
   induction cs with
-  | nil => intro st s fs j _; exact j.clean
+  | nil => intro st s j _; exact j.clean
   | cons c cs ih =>
-    intro st s fs j hr
+    intro st s j hr
     simp only [specReplayRedis]
-    exact ih _ _ _ (jr_step j hr c _) (Redis.exec_reach hp hr c)
+    exact ih _ _ (jr_step j hr c) (Redis.exec_reach hp hr c)
 
 end Eru.Lock.Spec
